@@ -49,7 +49,14 @@ pub fn run(ctx: &mut Ctx) {
         case.distinct(g.structural_hash(), deep && reach.generated > reach.count);
         let model = GraphModel(Arc::new(g));
         case.sample(|| model.summary());
-        let cfg = RunCfg { threads: 1, visitor: 2, ..RunCfg::default() };
+        // one run in four is cut by a depth limit: the order must stay by depth and a witness
+        // nearer than the limit must still be reported with the shortest path
+        let maxd = reach.dist.iter().filter(|d| **d != u32::MAX).max().copied().unwrap_or(0) as usize;
+        let target_max_depth = if case.rng.pct(25) { Some(case.rng.range(2, maxd + 3)) } else { None };
+        if target_max_depth.is_some() {
+            case.add("runs_with_depth_limit", 1);
+        }
+        let cfg = RunCfg { threads: 1, visitor: 2, target_max_depth, ..RunCfg::default() };
         let out = run_checker(&model, Strategy::Bfs, &cfg, false);
         if !out.finished {
             case.inconclusive("bfs did not finish within the watchdog");
@@ -80,6 +87,17 @@ pub fn run(ctx: &mut Ctx) {
         // shortest witnesses
         for (idx, d) in min_dist.iter().enumerate() {
             let name = NAMES[idx];
+            // (with a depth limit L a state is evaluated iff its path has fewer than L states)
+            let within = |d: u32| target_max_depth.map(|l| (d as usize) + 1 < l).unwrap_or(true);
+            if let (Some(d), None) = (d, out.discoveries.get(name)) {
+                if within(*d) && target_max_depth.is_some() {
+                    case.violation(
+                        "C13/bfs/witness-nearer-than-the-depth-limit-not-reported",
+                        json!({"model": model.summary(), "property": name, "oracle_min": d, "target_max_depth": target_max_depth}),
+                    );
+                    return;
+                }
+            }
             if let (Some(d), Some(path)) = (d, out.discoveries.get(name)) {
                 case.add("witness_lengths_compared", 1);
                 let transitions = path.len() - 1;
